@@ -65,8 +65,12 @@ func (t *c15fmTr) cond(e ast.Expr) (string, error) {
 	if t.elem != "" && s == "len("+t.elem+".from)==0" {
 		return "(list_is_empty (fst " + c15vn(t.elem) + "))", nil
 	}
-	if t.inInner && s == t.innerIdx+"<len("+t.innerOver+")-1" {
+	// (i is the index of the range loop over that slice: i != len-1 says the same as i < len-1, i >= len-1 as i == len-1)
+	if t.inInner && (s == t.innerIdx+"<len("+t.innerOver+")-1" || s == t.innerIdx+"!=len("+t.innerOver+")-1") {
 		return "(rt_more rest)", nil
+	}
+	if t.inInner && (s == t.innerIdx+"==len("+t.innerOver+")-1" || s == t.innerIdx+">=len("+t.innerOver+")-1") {
+		return "(negb (rt_more rest))", nil
 	}
 	switch x := e.(type) {
 	case *ast.ParenExpr:
